@@ -117,9 +117,11 @@ func TestC01Conservation(t *testing.T) {
 		var res vrun.Result
 		ok, dump := vrun.Watchdog(120*time.Second, func() { res = runCase(c, s) })
 		if !ok {
-			r := vrun.Inconcl("wall-clock watchdog (120 s) fired; see dump in witness")
+			r := vrun.WatchdogVerdict("the case never finished")
 			r.Desc = s
-			r.Witness = map[string]any{"dump_head": head(dump, 6000)}
+			if r.Verdict == vrun.Inconclusive {
+				r.Witness = map[string]any{"dump_head": head(dump, 6000)}
+			}
 			return r
 		}
 		res.Desc = s
